@@ -159,6 +159,24 @@ let run_w (line : string) =
       (show (va_walk ps)) (show (ff_walk ps)) (show (gen_walk ps))
   | _ -> print_endline "BAD"
 
+(* C <page> <addr> <n>: the mem_protect request of _MIR_change_code and the pages it covers;
+   U <page> <base> <off> ...: the same for _MIR_update_code_arr (coq/C03/CodePatch.v) *)
+let run_c (line : string) =
+  match words line with
+  | ["C"; pg; a; n] ->
+    let page = z_of_hex pg in
+    let r = change_code_region page (z_of_hex a) (z_of_hex n) in
+    let (s, l) = r in
+    let (lo, hi) = protected page r in
+    Printf.printf "start=%s len=%s lo=%s hi=%s\n" (hex_of_z s) (hex_of_z l) (hex_of_z lo) (hex_of_z hi)
+  | "U" :: pg :: b :: offs ->
+    let page = z_of_hex pg in
+    let r = update_code_region page (z_of_hex b) (List.map z_of_hex offs) in
+    let (s, l) = r in
+    let (lo, hi) = protected page r in
+    Printf.printf "start=%s len=%s lo=%s hi=%s\n" (hex_of_z s) (hex_of_z l) (hex_of_z lo) (hex_of_z hi)
+  | _ -> print_endline "BAD"
+
 let () =
   try
     while true do
@@ -168,6 +186,7 @@ let () =
       else if line.[0] = 'B' then run_b line
       else if line.[0] = 'H' then run_h line
       else if line.[0] = 'W' then run_w line
+      else if line.[0] = 'C' || line.[0] = 'U' then run_c line
       else print_endline "BAD"
     done
   with End_of_file -> ()
